@@ -92,6 +92,8 @@ class ExprMixin2:
             return [(st, V(ty, t))]
         if k in ("str", "bytes", "seq", "tuple", "int", "const", "float", "iter", "gen", "exc"):
             return [(st, V("bound", xs=(v, name)))]
+        if k in ("clsof", "opaque") and name in ("__name__", "__qualname__", "__module__"):
+            return [(st, V("str", fresh("clsname", Str)))]
         if k == "super":
             return [(st, self.super_attr(v, name, st, node))]
         if k == "func" and name in ("__code__", "__name__"):
@@ -477,7 +479,16 @@ class ExprMixin2:
             return a.t == b.t
         if a.k == "cls" and b.k == "cls":
             return z3.BoolVal(a.cls == b.cls)
-        return z3.BoolVal(False)
+        scalars = ("int", "str", "bytes", "float", "bool")
+        if a.k == "val" and b.k in scalars:
+            return a.t == box(b)
+        if b.k == "val" and a.k in scalars:
+            return b.t == box(a)
+        if a.k in scalars and b.k in scalars:
+            return self.py_eq(a, b, st) if a.k == b.k else z3.BoolVal(False)
+        if a.k == "tuple" or b.k == "tuple":
+            return self.py_eq(a, b, st)
+        raise Unsupported(f"identity test between {a!r} and {b!r}")
 
     def py_order(self, op, a, b, st, node):
         def rel(x, y):
